@@ -30,6 +30,7 @@ type Contract struct {
 	LoopInv  map[int][]*Clause
 	Asserts  []*Clause
 	Modifies []string // nil = inferred
+	PureFns  []string // function-valued parameters promised to be side-effect free
 	Pure     bool
 	Extern   bool // assumed contract on a function outside the module / without body
 	Assumed  bool // body exists but contract is assumed, not verified (must be listed)
@@ -595,6 +596,13 @@ func (g *Gen) loadContractFile(path, pkgPath string, pkg *types.Package) error {
 		case "pure":
 			cur.Pure = true
 			cur.Modifies = []string{}
+		case "purefn":
+			// purefn p: the function value passed as parameter p writes no memory (checked at every call site against
+			// the inferred frame of the value passed; inside the function a call of p is then a pure call)
+			if cur == nil || strings.TrimSpace(rest) == "" {
+				return fmt.Errorf("%s:%d: purefn <parameter>", path, l.line)
+			}
+			cur.PureFns = append(cur.PureFns, strings.TrimSpace(rest))
 		case "inline":
 			cur.Inline = true
 		case "nosafety":
